@@ -543,23 +543,29 @@ def run(ctx: Context) -> None:
         flow = ctx.flow(ed)
         fw = [c for c in calls_in(ed) if callee(ctx, ed, c) == f"{PX}.extract_points"]
         ctx.need('R05.3', len(fw) == 1, f"expected one extract_points call", ed)
+        # the two decisions (what extract_points is told, how the table is joined) are folded over the three policies:
+        # a conditional expression, an if chain, a match statement or a look-up table all read the same
+        from .common import Undecided, fold_function, names_deciding
         mp = kwarg(fw[0], 'missing_points')
-        mp = flow.resolve(mp) if mp is not None else None
-        ok_mp = (isinstance(mp, ast.IfExp) and const_value(mp.body, None) == 'error' and const_value(mp.orelse, None) == 'drop'
-                 and isinstance(mp.test, ast.Compare) and isinstance(mp.test.ops[0], ast.Eq)
-                 and flow.canon(mp.test.left) == ('param', 'missing_points') and const_value(mp.test.comparators[0], None) == 'error')
-        ok_mp = ok_mp or (mp is not None and flow.canon(mp) == ('param', 'missing_points') and False)
-        ctx.check('R05.3', ok_mp, "'error' is forwarded as 'error'; 'drop' and 'fill' both drop the misses first", ed, fw[0],
-                  construct=f"missing_points={norm_text(mp) if mp is not None else 'default'}")
         merges = [c for c in method_calls(ed, 'merge')]
         ctx.need('R05.3', len(merges) == 1, f"expected one merge call", ed)
         jn = kwarg(merges[0], 'join')
-        jr = flow.resolve(jn) if jn is not None else None
-        ok_join = (isinstance(jr, ast.IfExp) and const_value(jr.body, None) == 'outer' and const_value(jr.orelse, None) == 'inner'
-                   and isinstance(jr.test, ast.Compare) and isinstance(jr.test.ops[0], ast.Eq)
-                   and flow.canon(jr.test.left) == ('param', 'missing_points') and const_value(jr.test.comparators[0], None) == 'fill')
+        table, why = {}, ''
+        if mp is not None and jn is not None:
+            deciding = names_deciding(ed, [mp, jn])
+            for policy in ('error', 'drop', 'fill'):
+                try:
+                    kind_, vals = fold_function(ed, {'missing_points': policy}, only_names=deciding, want=[mp, jn])
+                    table[policy] = tuple(vals)
+                except Undecided as exc:
+                    why = f"not understood: {exc}"
+                    break
+        ok_mp = len(table) == 3 and {k: v[0] for k, v in table.items()} == {'error': 'error', 'drop': 'drop', 'fill': 'drop'}
+        ctx.check('R05.3', ok_mp, "'error' is forwarded as 'error'; 'drop' and 'fill' both drop the misses first", ed, fw[0],
+                  construct=f"missing_points={norm_text(mp) if mp is not None else 'default'}: {dict((k, v[0]) for k, v in table.items()) or why}")
+        ok_join = len(table) == 3 and {k: v[1] for k, v in table.items()} == {'error': 'inner', 'drop': 'inner', 'fill': 'outer'}
         ctx.check('R05.3', ok_join, "the merge with the input table is outer exactly for 'fill', inner otherwise", ed, merges[0],
-                  construct=f"join={norm_text(jr) if jr is not None else 'default'}")
+                  construct=f"join={norm_text(jn) if jn is not None else 'default'}: {dict((k, v[1]) for k, v in table.items()) or why}")
         fv = kwarg(merges[0], 'fill_value')
         ctx.check('R05.3', fv is not None and flow.canon(fv) == ('param', 'fill_value'), "missing rows are filled with the caller's fill value", ed, merges[0],
                   construct=f"fill_value={norm_text(fv) if fv is not None else 'default'}")
